@@ -57,6 +57,9 @@ CHECKS = {
     'C17': ('LALR(1) table interrogation: the shipped yypact/yytable/... arrays are read from the AST and walked like bison\'s skeleton for every operator pair/triple; switch-arm table extraction (constructed node kinds and arities vs evaluator arms); sequencing rule on the operand iterator; CFG dominance of the zero-divisor and index-bound tests',
             'Decides exhaustively over all 225 ordered operator pairs (3375 triples in the thorough tier) how the shipped parser groups them, that every parsed operator of the set is evaluated with the arity it is built with, that operand fetches are sequenced, and that division/modulo and array indexing are guarded.',
             'Not decided: numeric results, struct/array read-back values.'),
+    'C18': ('equation-template extraction: symbolic evaluation of ChartToVHDL\'s comma-operator DSL (VASSIGN/VOR/VAND/VNOT/VLINE) and of the loops and relation filters that fill its term containers, over canonical element names; domain typing of every emitted signal index and relation subscript; truth-table comparison of each equation skeleton with the reference function; reference-table comparison of container composition with three-valued evaluation of state-kind guards',
+            'Decides for ALL documents that the emitted next-state logic is assembled as the step algorithm prescribes: state-family signals are indexed with state numbers and transition-family signals with transition numbers, every relation bit string is read from the right kind of element, subscripted in the right domain and tests the element whose term it admits, every equation (optimal transition set, exit set, complete entry set up/down, entry set, next state) is the reference Boolean function of its atoms, every term container has the reference kind, scope, terms and filters (conflict suppression by earlier transitions only), and the state register copies next to active index by index.',
+            'Not decided: equality of the per-document equation system with the step algorithm for all configurations and valuations (equivalence checking per document); default completion through the `initial` attribute is a recorded finding; event controller, condition solver and timing are not analysed.'),
     'C19': ('literal-set extraction of the validator\'s vocabulary against the executor\'s dispatch chain and the engines\' state vocabulary; string-template analysis of how each data-model API method hands its argument to the language parser (statement vs expression vs location context) compared between the validator\'s and the executor\'s call for each attribute kind; message -> severity table; non-emptiness analysis of container accesses in the validator',
             'Decides that everything the validator accepts as executable content is executed, that validator and engines agree on what a state is, that expression attributes are syntax-checked in the context in which they are later evaluated (no false syntax warnings by construction, for every in-tree data model), that the issues which make execution dereference missing states are FATAL, and that the validator does not peek into empty lists.',
             'Not decided: soundness and completeness of the structural verdict for every document.'),
@@ -67,7 +70,6 @@ CHECKS = {
 
 NOT_APPLICABLE = {
     'C06': 'equality of two operational semantics (spin model vs interpreter) for all charts: no structural fact of the generator implies it; generator-level facts are decided under C05/C12/C20 (DESIGN 5)',
-    'C18': 'equivalence of per-document Boolean equations with the step algorithm is a SAT/BDD problem per document (solver family), not decidable from code shape (DESIGN 5)',
 }
 
 ALL = ['C%02d' % i for i in range(1, 21)]
